@@ -92,7 +92,19 @@ pub fn run(ctx: &mut Ctx) {
             let mut e1 = build_engine(&rules, opts, true, optimize);
             let mut e2 = build_engine(&permuted, opts, true, !optimize);
             e1.use_tags(&tags);
-            e2.use_tags(&tags);
+            // the twin reaches the same set by another route: enable a superset, then disable the
+            // surplus (in one call or tag by tag)
+            let surplus: Vec<&str> = TAGS.iter().filter(|t| !tags.contains(t)).filter(|_| r.chance(2, 3)).cloned().collect();
+            let mut first: Vec<&str> = tags.iter().chain(surplus.iter()).cloned().collect();
+            r.shuffle(&mut first);
+            e2.enable_tags(&first);
+            if r.chance(1, 2) {
+                e2.disable_tags(&surplus);
+            } else {
+                for t in &surplus {
+                    e2.disable_tags(&[*t]);
+                }
+            }
             let mut scan = Scan::new(&rules, opts);
             let mut out = vec![];
             for _ in 0..4 {
@@ -120,7 +132,7 @@ pub fn run(ctx: &mut Ctx) {
                     sigs.push("C15:csp-set-differs-from-reference");
                 }
                 if got1 != got2 {
-                    sigs.push("C15:csp-depends-on-rule-order");
+                    sigs.push("C15:csp-depends-on-rule-order-or-tag-route");
                 }
                 let is_doc = matches!(ty, "document" | "subdocument" | "main_frame" | "sub_frame");
                 if !is_doc && (got1.is_some() || got2.is_some()) {
